@@ -3,7 +3,7 @@
    with the force path: AForce = Kill(FatalError(ErrForceStop)) + per-node ForceStop, ACut = an open
    message nacked on the cancelled context, AAbortSrc = the source ends without draining). *)
 From Verif Require Import Stop.Stop Stop.StopProofs Stop.ForceStop Stop.ForceStopProofs.
-From Verif Require Stop.Events Stop.Check Stop.CheckProofs.
+From Verif Require Stop.Events Stop.Check Stop.CheckProofs Stop.GenStop Stop.GenStopProofs.
 
 Theorem C12_force_latch : forall l, count_start l = 1 -> In FStop l ->
   cancelled (frun l) = true /\ nil_called (frun l) = false.
@@ -61,7 +61,7 @@ Print Assumptions C12_accepted_ack_is_durable.
 Theorem C12_accepted_commit_is_safe : forall nd l snap,
   Check.accept nd (l ++ [Events.ECommit snap]) = true ->
   Check.snap_ge snap (Check.stored (Check.track nd l)) = true /\
-  forall p, In p snap -> snd p = 0 \/ Check.handled nd (Check.track nd l) (fst p) (snd p) = true.
+  forall p, In p snap -> snd p = 0 \/ Check.handled (Check.c_ndst nd) (Check.track nd l) (fst p) (snd p) = true.
 Proof. exact CheckProofs.accepted_commit_is_safe. Qed.
 Print Assumptions C12_accepted_commit_is_safe.
 
@@ -70,6 +70,55 @@ Theorem C12_accepted_open_resumes_at_durable_position : forall nd l s pos,
   pos = Check.lookup s (Check.stored (Check.track nd l)).
 Proof. exact CheckProofs.accepted_open_resumes_at_durable_position. Qed.
 Print Assumptions C12_accepted_open_resumes_at_durable_position.
+
+(* (ii) every accepted log satisfies the ack clause of Mon_C12: no ack for an unhandled record, none out
+   of order, none to a torn-down plugin; and the status clause: the first status after a force stop
+   that returned nil is the force-stop failure (or "stopped by the user" under a graceful stop) *)
+Theorem C12_accepted_log_acks_only_handled : forall c l, Check.accept c l = true ->
+  Check.pack_unhandled (Check.track c l) = false /\ Check.pack_disorder (Check.track c l) = false /\
+  Check.pack_closed (Check.track c l) = false.
+Proof. exact CheckProofs.accepted_log_acks_only_handled. Qed.
+Print Assumptions C12_accepted_log_acks_only_handled.
+
+Theorem C12_accepted_status_after_force : forall c l st f,
+  Check.accept c (l ++ [Events.EStatus st f]) = true -> Check.fnil (Check.track c l) = true ->
+  Check.force_status_ok (Check.graceful (Check.track c l)) st f = true.
+Proof. exact CheckProofs.accepted_status_after_force. Qed.
+Print Assumptions C12_accepted_status_after_force.
+
+(* (i), protocol half: in the generative model (1 source x M destinations) an ack is emitted only for a
+   durable record every destination confirmed, with the plugin up; a commit lies on such a record; after a
+   force stop that found the pipeline running the status emitted is degraded with the force-stop error *)
+Theorem C12_gen_ack_guard : forall e m s s', GenStopProofs.greach e m s ->
+  GenStop.gstep s GenStop.GDeliver = Some s' ->
+  GenStop.evs s' = Events.EPack 1 (S (pack (GenStop.base s))) :: GenStop.evs s /\
+  S (pack (GenStop.base s)) <= stored (GenStop.base s) /\
+  (forall i, i < m -> S (pack (GenStop.base s)) <= nth i (GenStop.cc s) 0) /\
+  plugin_up (GenStop.base s) = true.
+Proof. exact GenStopProofs.gen_ack_guard. Qed.
+Print Assumptions C12_gen_ack_guard.
+
+Theorem C12_gen_commit_guard : forall e m s, GenStopProofs.greach e m s ->
+  stored (GenStop.base s) <= eack (GenStop.base s) /\
+  forall i, i < m -> eack (GenStop.base s) <= nth i (GenStop.cc s) 0.
+Proof. exact GenStopProofs.gen_commit_guard. Qed.
+Print Assumptions C12_gen_commit_guard.
+
+Theorem C12_gen_status_after_force : forall e m s1 s2 l s3 s4, GenStopProofs.greach e m s1 ->
+  GenStop.gstep s1 GenStop.GForce = Some s2 -> GenStop.grun s2 l = Some s3 ->
+  GenStop.gstep s3 GenStop.GCleanup = Some s4 ->
+  GenStop.evs s4 = Events.EStatus Events.StDegraded true :: GenStop.evs s3.
+Proof. exact GenStopProofs.gen_status_after_force. Qed.
+Print Assumptions C12_gen_status_after_force.
+
+Example C12_gen_trace_accepted_v2 :
+  match GenStop.grun (GenStop.ginit false 1)
+    [GenStop.GEmit; GenStop.GRead; GenStop.GWrite 0; GenStop.GForce; GenStop.GCut; GenStop.GAbortSrc;
+     GenStop.GDownTear; GenStop.GCleanup] with
+  | Some s => Check.accept (Check.mkC false false 1 1) (GenStop.trace s)
+  | None => false
+  end = true.
+Proof. vm_compute. reflexivity. Qed.
 
 (* non-vacuity: the stop is latched before the node starts; and a run is force-stopped mid-batch *)
 Example C12_nonvacuous_latch : cancelled (frun [FStop; FStart]) = true /\ cancelled (frun [FStart; FStop]) = true.
